@@ -443,7 +443,57 @@ fn neighbour(l: &Locale, r: &mut Rng) -> Option<(Locale, &'static str)> {
     let mut m = l.clone();
     let u = &l.extensions.unicode;
     let t = &l.extensions.transform;
-    match r.below(7) {
+    match r.below(9) {
+        7 | 8 => {
+            // exactly one character of one subtag of the id changed (any position: a comparison made on a packed,
+            // truncated or hashed form of a subtag confuses values that differ in one late or one early character)
+            fn bump_at(s: &str, i: usize, r: &mut Rng) -> String {
+                let mut b = s.as_bytes().to_vec();
+                b[i] = match b[i] {
+                    b'0'..=b'9' => b'0' + ((b[i] - b'0') + 1 + r.below(8) as u8) % 10,
+                    b'a'..=b'z' => b'a' + ((b[i] - b'a') + 1 + r.below(24) as u8) % 26,
+                    b'A'..=b'Z' => b'A' + ((b[i] - b'A') + 1 + r.below(24) as u8) % 26,
+                    c => c,
+                };
+                String::from_utf8(b).unwrap_or_else(|_| s.to_string())
+            }
+            let pos = |len: usize, r: &mut Rng| match r.below(3) {
+                0 => 0,
+                1 => len - 1,
+                _ => r.below(len),
+            };
+            match r.below(4) {
+                0 if !l.id.language.is_empty() => {
+                    let t = l.id.language.as_str();
+                    let n = bump_at(t, pos(t.len(), r), r);
+                    if n == "und" {
+                        return None;
+                    }
+                    m.id.language = n.parse().ok()?;
+                }
+                1 => {
+                    let t = l.id.script?;
+                    let t = t.as_str();
+                    m.id.script = Some(bump_at(t, pos(t.len(), r), r).parse().ok()?);
+                }
+                2 => {
+                    let t = l.id.region?;
+                    let t = t.as_str();
+                    m.id.region = Some(bump_at(t, pos(t.len(), r), r).parse().ok()?);
+                }
+                _ => {
+                    let mut vs: Vec<Variant> = l.id.variants().cloned().collect();
+                    if vs.is_empty() {
+                        return None;
+                    }
+                    let k = r.below(vs.len());
+                    let t = vs[k].as_str().to_string();
+                    vs[k] = bump_at(&t, pos(t.len(), r), r).parse().ok()?;
+                    m.id.set_variants(&vs);
+                }
+            }
+            Some((m, "neighbour: one character of one id subtag changed"))
+        }
         0 => {
             // move the last type of one keyword to the front of the next keyword (same flattened type sequence)
             let keys: Vec<&str> = u.keyword_keys().collect();
